@@ -155,6 +155,18 @@ def run(ctx):
         ok = all(isinstance(o.fields.get(k), Form) and o.fields[k].single_atom() and o.fields[k].single_atom()[1] == "scipy.signal.sosfiltfilt" for k in ("signal", "noise"))
         bpf = [r for r in it.calls if r.callee == "opticomlib.devices.BPF"]
         ctx.check("C10.4", ok and len(bpf) == 1, fi, rets[0].node, "EDFA with BW: output through BPF", "signal and noise both band-limited", "with a bandwidth argument the whole output is not passed through the optical filter")
+        # the field handed to the filter is the BW=None output: white ASE of power NF*h*f0*(G-1)*fs over the whole simulated band
+        # (the filter then keeps the in-band part; scaling the total by BW/fs as well would lower the in-band density)
+        pre = bpf[0].args[0] if len(bpf) == 1 and bpf[0].args else None
+        randn = [r for r in it.calls if r.callee in ("numpy.random.randn", "numpy.random.standard_normal", "numpy.random.normal")]
+        if isinstance(pre, ObjV) and isinstance(pre.fields.get("noise"), Form) and len(randn) == 1:
+            inpart, ase = split_terms(pre.fields["noise"], lambda t: has_sym(t, "input.noise"))
+            X = fpow(P_ase / 4, Fraction(1, 2)) * randn[0].result
+            want = Form.atom(("idx", X, SliceV(Const(None), Form.num(2), Const(None)))) + Form.num(0, 1) * Form.atom(("idx", X, SliceV(Form.num(2), Const(None), Const(None))))
+            ctx.check("C10.3", ase == want, fi, bpf[0].node, "EDFA with BW: ASE handed to the filter", f"white ASE of power P_ase = {P_ase!r} (as without BW), band-limited afterwards",
+                      f"with a bandwidth argument the ASE generated before the filter is {ase!r}, not the BW=None noise {want!r}: the output is not the band-limited version of the documented output")
+        else:
+            ctx.unknown("C10.3", fi, fi.node, "EDFA with BW: ASE handed to the filter", "field passed to BPF not resolved")
     else:
         ctx.unknown("C10.4", fi, fi.node, "EDFA with BW", "return not resolved")
     check_late_binding(ctx, "C10.6", ["devices.EDFA"])
